@@ -33,10 +33,10 @@ func (c10) Budget(tier string) int {
 
 func (c10) Describe() engine.Info {
 	return engine.Info{
-		Rule: "class history: MBC3 cartridge, 6..40 operations over {latch 0, latch 1, select register 08-0C (and RAM banks), read, write (incl. seconds write and halt on/off), clock warp to k cycles before a second boundary with counters near 59/59/23/511} separated by 1..6 cycles, a fraction of a second, or 1-3 seconds. After every operation and after every elapsed span the selected register is read and compared; " +
+		Rule: "class history: MBC3 cartridge, 6..40 operations over {RAM/clock gate open/close (latches also while it is closed), latch 0, latch 1, select register 08-0C (and RAM banks), read, write (incl. seconds write and halt on/off), clock warp to k cycles before a second boundary with counters near 59/59/23/511} separated by 1..6 cycles, a fraction of a second, or 1-3 seconds. After every operation and after every elapsed span the selected register is read and compared; " +
 			"class step: the one-second step from sampled and boundary counter states through the accessor, compared with the reference step. Oracle: reference RTC (60/60/24/512 carries, sticky day carry, halt freezes counters and sub-second count, latch only on 0 then 1, masks 3F/3F/1F/FF/C1, writes set live counters, seconds write restarts the sub-second count). Signature = (operation, selected register, halted, latch state, carry level reached).",
 		Assumptions:    []string{"counter values outside 0-59/0-23 written by the guest are judged for masks only", "the clock warp is a fault injected through the verif accessor into both the emulator and the model"},
-		RequiredProbes: []string{"second_boundary_crossed", "minute_carry", "hour_carry", "day_carry", "day_overflow", "halted_span", "latch_without_low", "seconds_write", "step_cases"},
+		RequiredProbes: []string{"latch_with_gate_closed", "second_boundary_crossed", "minute_carry", "hour_carry", "day_carry", "day_overflow", "halted_span", "latch_without_low", "seconds_write", "step_cases"},
 		RealComponents: realComponents, StubComponents: stubComponents,
 		Sweeps: []string{"class step: per scenario 20000 counter states (every state with s>=58 or m>=58 or h>=22 or d>=510 is favoured) x one-second step"},
 	}
@@ -75,7 +75,23 @@ func (c10) Generate(r *engine.Rand, index int, tier string) *engine.Scenario {
 				at += uint64(r.Range(1, 50))
 			}
 		}
-		switch k := r.Intn(14); {
+		switch k := r.Intn(16); {
+		case k >= 14:
+			// the RAM/clock access gate: latching does not depend on it, reading does
+			v := uint8(0x0a)
+			if r.Chance(3, 5) {
+				v = engine.Pick(r, []uint8{0x00, 0x0b, 0xa0, 0xff, 0x1a})
+			}
+			add(engine.Event{K: "bus_w", A: uint16(r.Intn(0x2000)), V: v, S: "gate"})
+			if v != 0x0a && r.Chance(2, 3) {
+				// latch while the gate is closed, then open it again
+				at += uint64(r.Range(1, 2000))
+				add(engine.Event{K: "bus_w", A: 0x6000 + uint16(r.Intn(0x2000)), V: 0x00, S: "latch0"})
+				at += uint64(r.Range(1, 6))
+				add(engine.Event{K: "bus_w", A: 0x6000 + uint16(r.Intn(0x2000)), V: 0x01, S: "latch1"})
+				at += uint64(r.Range(1, 6))
+				add(engine.Event{K: "bus_w", A: uint16(r.Intn(0x2000)), V: 0x0a, S: "gate"})
+			}
 		case k < 2:
 			add(engine.Event{K: "bus_w", A: 0x6000 + uint16(r.Intn(0x2000)), V: r.Byte() &^ 1, S: "latch0"})
 		case k < 4:
@@ -178,6 +194,9 @@ func (c10) Execute(sc *engine.Scenario) *engine.Result {
 			case "bus_w":
 				if ev.S == "latch1" && !ct.LatchLow {
 					res.Probe("latch_without_low")
+				}
+				if ev.S == "latch1" && ct.LatchLow && !ct.RamOn {
+					res.Probe("latch_with_gate_closed")
 				}
 				if ev.S == "write" && ct.RamOn && ct.RamB == 0x08 {
 					res.Probe("seconds_write")
